@@ -837,9 +837,10 @@ impl Function for ToNumberFn {
         self.signature.validate(args, ctx)?;
         match *args[0] {
             Variable::Number(_) => Ok(args[0].clone()),
+            // Only a string holding a JSON number converts; any other JSON is null.
             Variable::String(ref s) => match Variable::from_json(s) {
-                Ok(f) => Ok(Rcvar::new(f)),
-                Err(_) => Ok(Rcvar::new(Variable::Null)),
+                Ok(f @ Variable::Number(_)) => Ok(Rcvar::new(f)),
+                _ => Ok(Rcvar::new(Variable::Null)),
             },
             _ => Ok(Rcvar::new(Variable::Null)),
         }
